@@ -31,13 +31,13 @@ LEVEL = ('proof',
  'transcription of lower_int_literal (over the token text, with the checked u64 arithmetic of std), '
  'lower_string_literal / lower_char_literal, the IntTooBigForType check, the IntLiteral arm of reinfer_expr, the '
  'global i32 defaulting and finalize_int: lowerInt_value (whatever is lowered is the spelled value), '
- 'lowerInt_overflow_iff_partial (+ counterexample 0e20), escape_table_exact, invalid_escape_rejected, '
+ 'lowerInt_overflow_iff / lowerInt_accepts_iff (full since the `0eN` fix; lowerIntOld_overflow_counterexample keeps the pinned behaviour), escape_table_exact, invalid_escape_rejected, '
  'lowerString_value, lowerChar_value/_rejects, accepts_iff_fits (all 12 integer types), accepted_keeps_value, '
  'default_keeps_value, default_accepts — full strength after FIX.patch (i128 limit, isize check, {uint} widening '
  'threshold); the tables are regenerated from the Rust source each run so the theorems are re-checked against the '
  'current code. Tied to the code by in-process lowering / type checking of every boundary spelling at every type in '
  '17 annotated contexts (incl. global / local comptime blocks) and 14 unannotated ones (incl. nine value-preserving wrappers: parentheses, comptime block, block, if, switch arm, array element, labelled break, parenthesised operand / assignment; fixes 11785ef, d3d0ed9), every escape, and end-to-end printed values; float literals (not modelled in Lean) only by run-time '
- "bit pattern vs Rust's str::parse. Known findings: f32 literals are rounded twice (via f64); `0e20` is rejected.",
+ "bit pattern vs Rust's str::parse. Known finding: f32 literals are rounded twice (via f64).",
  '§4 C09',
  'Lean 4 proof (induction over the digit list / component list, case analysis over the type table) + translator '
  'for the tables + differential correspondence in-process and end-to-end')
